@@ -3,7 +3,10 @@
 # 1. test suite with the change; 2. demo fails with / passes without; 3. apply to /repo, run the check, undo.
 set -u
 ID=$1; WT=$2; NAME=${3:-$ID}
-OUT=/verif/seeded/$NAME
+REPO=${VERIF_REPO:-/repo}      # a scratch copy of the repository may be named (vp run --with-repo: VERIF_REPO=$VP_RUN_REPO)
+export VERIF_REPO="$REPO"
+VROOT=$(cd "$(dirname "$0")/.." && pwd)
+OUT=$VROOT/seeded/$NAME
 mkdir -p "$OUT"
 cp "$WT"/SEEDED/patch.diff "$WT"/SEEDED/demo.py "$WT"/SEEDED/meta.json "$OUT"/ 2>/dev/null
 cd "$WT" || exit 2
@@ -21,11 +24,11 @@ PYTHONPATH=$WT PYTHONDONTWRITEBYTECODE=1 timeout 300 /venv/bin/python SEEDED/dem
 tail -2 "$OUT/demo_without.txt"; echo "exit=$DO"
 git apply "$OUT/patch.diff"
 echo "== check on /repo with change"
-if [ -n "$(git -C /repo status --porcelain)" ]; then echo "/repo not clean"; exit 2; fi
-git -C /repo apply "$OUT/patch.diff" || { echo "patch does not apply"; exit 2; }
-cd /verif
-timeout 1500 ./check "$ID" > "$OUT/check_output.txt" 2>&1; CK=$?
-git -C /repo checkout -- .
+if [ -n "$(git -C "$REPO" status --porcelain)" ]; then echo "$REPO not clean"; exit 2; fi
+git -C "$REPO" apply "$OUT/patch.diff" || { echo "patch does not apply"; exit 2; }
+cd "$VROOT"
+timeout 3000 ./check "$ID" > "$OUT/check_output.txt" 2>&1; CK=$?
+git -C "$REPO" checkout -- .
 grep -h "VIOLATION\|KNOWN-FINDING" "$OUT/check_output.txt" | head -5; echo "check exit=$CK"
 git checkout -- evidence 2>/dev/null
 printf '{"suite":"%s","demo_with_exit":%s,"demo_without_exit":%s,"check":"./check %s","check_exit":%s}\n' "$SUITE" "$DW" "$DO" "$ID" "$CK" > "$OUT/ran.json"
